@@ -1589,13 +1589,20 @@ bool Parser::parseTagTypeSpecifier_AtFirst(
                 tySpec->closeBraceTkIdx_ = consume();
                 goto MembersParsed;
 
-            default:
+            default: {
+                auto tkIdx_AtMember = curTkIdx_;
                 if (!((this)->*(parseMember))(membDecl)) {
                     ignoreMemberDeclaration();
                     if (peek().kind() == SyntaxKind::EndOfFile)
                         return false;
+                    // Recovery stopped right where the member started (at a
+                    // token that begins another declaration): leave the
+                    // member list, or this loop would never advance.
+                    if (curTkIdx_ == tkIdx_AtMember)
+                        return false;
                 }
                 break;
+            }
         }
         *declList_cur = makeNode<DeclarationListSyntax>(membDecl);
         declList_cur = &(*declList_cur)->next;
